@@ -779,7 +779,7 @@ func ruleSnapshotBufferFresh(c *Ctx, r *Rule) {
 	}
 	r.Inst(1)
 	name := c.fnName(saver)
-	r.Ob(len(appends) >= 3, name+"|buffer-appends", saver.Pos(), fmt.Sprintf("the saver formats the snapshot into offsetDB.buf (%d stores)", len(appends)))
+	r.Ob(len(appends) >= 1, name+"|buffer-appends", saver.Pos(), fmt.Sprintf("the saver formats the snapshot into offsetDB.buf (%d stores)", len(appends)))
 	bad := token.NoPos
 	for _, ap := range appends {
 		dom := false
